@@ -24,14 +24,14 @@ SRC_DIAG := monitoring/RateMonitoring.cpp monitoring/OnlineAverage.cpp monitorin
             diagnostics/CheckupRate.cpp diagnostics/CheckupReliability.cpp diagnostics/Diagnostic.cpp \
             diagnostics/DiagnosticReport.cpp diagnostics/DiagnosticStatus.cpp
 SRC_C17 := $(SRC_DIAG)
-SRC_C18 := $(SRC_DIAG)
+SRC_C18 := $(SRC_DIAG) geodesy/WGS84Coordinates.cpp
 SRC_C02 := geodesy/ENUConverter.cpp geodesy/ECEFConverter.cpp geodesy/EarthEllipsoid.cpp \
            geodesy/GeodeticCoordinates.cpp geodesy/WGS84Coordinates.cpp
 SRC_C07 := regression/leastsquares/LeastSquares.cpp
 SRC_C14 := containers/grid/RayTracing.cpp containers/grid/GridIndexMapping.cpp
 
 .PHONY: all clean e3
-all: $(addprefix $(B)/,$(PROPS)) e3
+all: $(addprefix $(B)/,$(PROPS)) $(addsuffix .nd,$(addprefix $(B)/,$(PROPS))) e3
 
 # --- repository objects (plain and sanitized)
 $(B)/repo/%.o: $(REPO)/src/%.cpp
@@ -40,6 +40,14 @@ $(B)/repo/%.o: $(REPO)/src/%.cpp
 $(B)/repo-san/%.o: $(REPO)/src/%.cpp
 	@mkdir -p $(dir $@)
 	$(CXX) $(SANFLAGS) -c $< -o $@
+
+# --- the same with assertions compiled out (-DNDEBUG, as in the repository's RelWithDebInfo / Release builds)
+$(B)/repo-nd/%.o: $(REPO)/src/%.cpp
+	@mkdir -p $(dir $@)
+	$(CXX) $(REPOFLAGS) -DNDEBUG -c $< -o $@
+$(B)/props-nd/%.o: props/%.cpp
+	@mkdir -p $(dir $@)
+	$(CXX) $(PROPFLAGS) -DNDEBUG -c $< -o $@
 
 # --- property objects
 $(B)/props/%.o: props/%.cpp
@@ -54,6 +62,8 @@ $(B)/$(1): $(B)/props/$(1).o $$(addprefix $(B)/repo/,$$(SRC_$(1):.cpp=.o))
 	$(CXX) -o $$@ $$^ -lpthread
 $(B)/$(1).san: $(B)/props-san/$(1).o $$(addprefix $(B)/repo-san/,$$(SRC_$(1):.cpp=.o))
 	$(CXX) -fsanitize=address,undefined -o $$@ $$^ -lpthread
+$(B)/$(1).nd: $(B)/props-nd/$(1).o $$(addprefix $(B)/repo-nd/,$$(SRC_$(1):.cpp=.o))
+	$(CXX) -o $$@ $$^ -lpthread
 endef
 $(foreach p,$(E1E2),$(eval $(call PROP_RULE,$(p))))
 
